@@ -1,7 +1,7 @@
 """C09 — TTL expiry fires exactly once, on time, never early; a refresh postpones it."""
 from models.discovery import DiscoveryOracle
 from models.subscription import SubscriptionOracle
-from .builders import Builder, INF_TTL, decode_index, sweep_count as _sc
+from .builders import Builder, INF_TTL, decode_index, ep, sweep_count as _sc
 from .common import COMPONENTS, ASSUMPTIONS, rng, site_from_detail  # noqa: F401
 
 ID = "C09"
@@ -127,8 +127,21 @@ def random_plan(seed, idx):
         p = r.randrange(3)
         key = r.choice(KEYS)
         ttl = r.choice([1, 1, 2, 3, BIG, INF_TTL])
+        # entries in front of the one of interest, as a peer's send collector produces them: the (negative)
+        # acknowledgement of a Subscribe of ours, a FindService, the offer of something nobody watches
+        pre = None
+        if r.random() < 0.2:
+            pre = [r.choice([["suback", 0x5555, 1, 1, 1, 0, 0], ["suback", 0x5555, 1, 1, 1, 3, 0], ["find", 0x7777, 0xFFFF, 0xFF, 0xFFFFFFFF, 3], ["offer", 0x6666, 1, 1, 0, 3]])]
+        # several endpoint options in one Subscribe, in either order (the same subscription)
+        eps = None
+        if r.random() < 0.25:
+            eps = [ep(p), ep(p, 4001)] if r.random() < 0.5 else [ep(p, 4001), ep(p)]
         if k < 0.30:
-            b.offer(p, key, ttl, r.choice("mmu"))
+            if r.random() < 0.15:
+                # one message refreshes an offer and a subscription
+                b.offer(p, key, ttl, "u", extra=[["sub", I0[0], I0[1], I0[2], r.choice([1, 2]), ttl, 0, eps or [ep(p)]]], pre=pre)
+            else:
+                b.offer(p, key, ttl, r.choice("mmu"), pre=pre)
         elif k < 0.38:
             b.offer(p, key, 0, r.choice("mmu"))
         elif k < 0.46:
@@ -138,9 +151,9 @@ def random_plan(seed, idx):
             else:
                 b.find(p, r.choice("mu"))
         elif k < 0.72:
-            b.sub(p, I0, r.choice([1, 2]), ttl, r.choice([0, 0, 1]))
+            b.sub(p, I0, r.choice([1, 2]), ttl, r.choice([0, 0, 1]), eps=eps, pre=pre)
         elif k < 0.80:
-            b.sub(p, I0, r.choice([1, 2]), 0, r.choice([0, 0, 1]))
+            b.sub(p, I0, r.choice([1, 2]), 0, r.choice([0, 0, 1]), eps=eps)
         elif k < 0.88:
             b.preboot(p)
             b.sub(p, I0, r.choice([1, 2]), ttl)
